@@ -122,7 +122,7 @@ func (w *c15World) gapReload(g *c15Gen, k int) {
 	w.etcd.scheduleGap(w.gapChanges(g, k))
 	nb := w.etcd.watchCount()
 	expected := internal.C15ListenedKeys(w.eps)
-	if !internal.C15Reload(w.eps, w.etcd) {
+	if exists, ok := w.reloadNow("reload"); !ok || !exists {
 		return
 	}
 	if !w.waitWatches(nb+expected, "reload") {
@@ -200,8 +200,14 @@ func c15GapScenario(m *vk.M, idx int, r *rand.Rand, kinds map[string]int64) bool
 	}
 	w.tag = "gap-after-snapshot"
 	g := newC15Gen(w, r, false)
-	for i := r.Intn(3); i > 0; i-- {
-		g.putOrDel(true)
+	if idx%5 == 0 {
+		// a fresh etcd: the store is empty and at revision 1, the first snapshot carries
+		// revision 1
+		w.etcd.base = 1
+	} else {
+		for i := r.Intn(3); i > 0; i-- {
+			g.putOrDel(true)
+		}
 	}
 	w.gapAttach(g, idx%4 == 0, 1+r.Intn(3)) // first Monitor
 	steps := 4 + r.Intn(6)
